@@ -258,6 +258,12 @@ class Machine(Node):
             raise ValueError(f"Edge already exists in Machine '{self.id}' in_edges.")
         
     def update_final_state_time(self, simulation_end_time):
+        if self.stats["last_state_change_time"] is None:
+            # the simulation ended while the machine was still in its set-up period
+            self.stats["total_time_spent_in_states"]["SETUP_STATE"] += simulation_end_time
+            self.total_time_setup += simulation_end_time
+            self._update_worker_occupancy("UPDATE")
+            return
         duration = simulation_end_time- self.stats["last_state_change_time"]
         # updating the time of per thread statescld
         for procs in self.worker_thread_list:
